@@ -146,6 +146,18 @@ class FakeAMQP:
         self._kicked = True
         asyncio.get_running_loop().call_soon(self.dispatch)
 
+    def server_cancel(self, queue=None):
+        """Consumer cancel notification (what a broker sends when it takes a consumer away: queue moved to another node,
+        policy change): Basic.Cancel to the client, the consumer is gone, its unacknowledged deliveries stay on the channel."""
+        n = 0
+        for c, ch, tag, co in self._consumers():
+            if queue is None or co["queue"] == queue:
+                ch.consumers.pop(tag, None)
+                chn = next(k for k, v in c.channels.items() if v is ch)
+                c.send(chn, spec.Basic.Cancel(consumer_tag=tag, nowait=True))
+                n += 1
+        return n
+
     def _consumers(self):
         out = []
         for c in self.conns:
